@@ -4,7 +4,7 @@ Block:
   case <id>
   entry date|variational_gamma|inside_outside|maximization|preprocess_ts|split_disjoint_nodes
   method <name>                 (dating entries: the estimation method actually used)
-  user 0|1                      (record_provenance)
+  user 0|1|none                 (record_provenance: False, True, None or omitted)
   prov <id> <id> ...            (opaque ids of the existing provenance rows, possibly none)
   arg <name> <val>              (values passed by the caller; absent = None)
   npop <val>                    (population_size after __init__'s normalisation)
@@ -49,7 +49,9 @@ def showP (lit : Bool) : PVal → String
 def runCase (blk : List (List String)) : Option String := do
   let id ← (← field blk "case").head?
   let entry ← (← field blk "entry").head?
-  let user ← match (← field blk "user") with | ["1"] => some true | ["0"] => some false | _ => none
+  let user ← match (← field blk "user") with
+    | ["1"] => some (resolveFlag (some true)) | ["0"] => some (resolveFlag (some false))
+    | ["none"] => some (resolveFlag none) | _ => none
   let prov ← field blk "prov"
   let pairs ← mapAll (fun (l : List String) => match l with
     | [_, k, v] => (parseP v).map (fun x => (k, x))
